@@ -352,16 +352,31 @@ def run(rep, ctx):
                     il = [y for y in walk(x) if y["k"] == "InitListExpr"]
                     return render(kids(il[0])[0]).replace(" ", "").replace("std::", "") if il else render(x)
         return None
-    sw = [n for n in g.walk() if n["k"] == "SwitchStmt"]
-    if len(sw) != 1:
-        raise AnalysisBroken("C07.G1: generic evaluator without a single switch")
-    secs = switch_sections(sw[0])
+    # which return is taken for each context value (switch, if-chain, ...): selected by case evaluation
+    def generic_case(ctxval):
+        def atom(t, n, env):
+            if t.endswith("GetContext().GetValue()"):
+                return ctxval
+            if t.endswith(".recomp_vals()"):
+                return 0
+            if t.endswith("GetResultVar()"):
+                return 5
+            return None
+        mi = MiniInt(F, atom)
+        mi.select_only = True
+        r_ = mi.call(g, [("obj", None, None), ("obj", None, None)])
+        if not isinstance(r_, dict):
+            return None
+        il = [y for y in walk(r_) if y["k"] == "InitListExpr"]
+        return (xrender(g, kids(il[0])[0]).replace(" ", "").replace("std::", "") if il else render(r_)), r_
     want = {"CTX_MIX": "fabs(viol)", "CTX_POS": "viol", "CTX_NEG": "-viol"}
+    where_ = short_loc(g.loc)
     for nm, w in want.items():
-        got = ret_expr(secs.get(ctx_vals[nm], []))
-        g1.check(got == w, "generic|%s" % nm, short_loc(sw[0].get("l")), "%s: violation = %s" % (nm, w), "%s: violation = %s, expected %s" % (nm, got, w))
-    gd = ret_expr(secs.get("default", []))
-    g1.check(gd is not None and "INFINITY" in gd.upper() or gd in ("inf", "__builtin_inff()", "__builtin_huge_valf()"), "generic|default-violated", short_loc(sw[0].get("l")),
+        got, rn_ = generic_case(ctx_vals[nm]) or (None, None)
+        g1.check(got == w, "generic|%s" % nm, where_, "%s: violation = %s" % (nm, w), "%s: violation = %s, expected %s" % (nm, got, w))
+    other_ = max(ctx_vals.values()) + 7
+    gd, rn_ = generic_case(other_) or (None, None)
+    g1.check(gd is not None and ("INFINITY" in gd.upper() or gd in ("inf", "__builtin_inff()", "__builtin_huge_valf()")), "generic|default-violated", where_,
              "any other context value counts as violated (infinite violation)", "default returns %s" % gd)
     vd = [v for v in g.walk() if v["k"] == "VarDecl" and v.get("name") == "viol"]
     g1.check(len(vd) == 1 and render(kids(vd[0])[0]).replace(" ", "") == "x[resvar]-ComputeValue(c,x)", "generic|difference", short_loc(g.loc),
